@@ -6,6 +6,8 @@
 //   client <call>...         a client thread: e<code> | t | w (loop_until_empty) | u (loop_until_terminate)
 //   main <call>...           calls made by the main thread itself after starting the clients
 //   run seed=<n> [stick=<0..255>] [spur=<k>] [max=<steps>] [sched=<csv>]
+//   explore runs=<n> [spur=<k>] [max=<steps>]   depth-first enumeration of all schedules (up to n runs);
+//                            answer `explored=<runs> complete=<0|1> violated=<0|1>`
 //   sched                    explicit schedule (draw list) reproducing the last run
 //
 // `run` executes: main constructs the pool (spawning the workers, thread ids 1..n),
@@ -206,32 +208,40 @@ static bool get_u64(const std::string& t, const char* key, uint64_t& out) {
     return true;
 }
 
-static std::string do_run(const std::vector<std::string>& t) {
-    if (sc.nworkers < 1) return "bad-op";
-    Sched& S = Sched::get();
-    uint64_t seed = 1, stick = 0, spur = 0, maxs = 4000;
+struct RunParams {
+    uint64_t seed = 1, stick = 0, spur = 0, maxs = 4000, maxruns = 2000;
     std::vector<uint64_t> sched;
+};
+
+static bool parse_params(const std::vector<std::string>& t, RunParams& p) {
     for (size_t i = 1; i < t.size(); ++i) {
         uint64_t v;
-        if (get_u64(t[i], "seed", v)) seed = v;
-        else if (get_u64(t[i], "stick", v)) stick = v;
-        else if (get_u64(t[i], "spur", v)) spur = v;
-        else if (get_u64(t[i], "max", v)) maxs = v;
+        if (get_u64(t[i], "seed", v)) p.seed = v;
+        else if (get_u64(t[i], "stick", v)) p.stick = v;
+        else if (get_u64(t[i], "spur", v)) p.spur = v;
+        else if (get_u64(t[i], "max", v)) p.maxs = v;
+        else if (get_u64(t[i], "runs", v)) p.maxruns = v;
         else if (t[i].compare(0, 6, "sched=") == 0) {
             std::string s = t[i].substr(6);
             if (s != "-") {
-                for (char ch : s) if (!isdigit(static_cast<unsigned char>(ch)) && ch != ',') return "bad-op";
+                for (char ch : s) if (!isdigit(static_cast<unsigned char>(ch)) && ch != ',') return false;
                 std::istringstream is(s);
                 std::string w;
-                while (std::getline(is, w, ',')) { if (w.empty() || w.size() > 18) return "bad-op"; sched.push_back(std::stoull(w)); }
+                while (std::getline(is, w, ',')) { if (w.empty() || w.size() > 18) return false; p.sched.push_back(std::stoull(w)); }
             }
-        } else return "bad-op";
+        } else return false;
     }
-    if (stick > 255 || maxs > 100000) return "bad-op";
+    return p.stick <= 255 && p.maxs <= 100000 && p.maxruns <= 10000000;
+}
+
+// one run of the scenario; returns the answer line, fills `v` with the oracle verdicts
+static std::string execute(const RunParams& p, bool tail_zero, std::vector<std::string>& v) {
+    Sched& S = Sched::get();
     RunState state;
     rs = &state;
-    S.seed = seed; S.sched = sched; S.stick = static_cast<unsigned>(stick); S.spur = static_cast<unsigned>(spur);
-    S.max_steps = maxs;
+    S.seed = p.seed; S.sched = p.sched; S.stick = static_cast<unsigned>(p.stick); S.spur = static_cast<unsigned>(p.spur);
+    S.max_steps = p.maxs;
+    S.tail_zero = tail_zero;
     S.on_stuck = on_stuck;
     S.on_event = [](int tid, Op op, const void* obj, long long val) {
         if (op == Op::Join && tid == 0 && rs->in_dtor && val == sc.nworkers) {
@@ -249,7 +259,6 @@ static std::string do_run(const std::vector<std::string>& t) {
         }
     };
     detsched::End e = S.run(scenario_main);
-    last_resolved = S.resolved;
     // summary (all logical threads are gone now)
     long long done = state.final_done;
     if (state.constructed && !state.destroyed) done = static_cast<long long>(state.pool->done_.peek());
@@ -263,12 +272,45 @@ static std::string do_run(const std::vector<std::string>& t) {
     os << " done=" << done << " steps=" << S.steps << " |";
     for (const auto& ev : S.trace) os << ' ' << ev;
     if (state.constructed && !state.destroyed) state.pool->~ThreadPool();
-    std::string ans = os.str();
-    // verdicts after the answer line of this op
-    std::vector<std::string> v = state.viols;
+    v = state.viols;
     rs = nullptr;
+    return os.str();
+}
+
+static std::string do_run(const std::vector<std::string>& t) {
+    if (sc.nworkers < 1) return "bad-op";
+    RunParams p;
+    if (!parse_params(t, p)) return "bad-op";
+    std::vector<std::string> v;
+    std::string ans = execute(p, false, v);
+    last_resolved = Sched::get().resolved;
     vh::answer(ans);
     for (const auto& m : v) vh::viol(m);
+    return "";
+}
+
+// systematic exploration of all schedules (depth first) up to `runs` runs
+static std::string do_explore(const std::vector<std::string>& t) {
+    if (sc.nworkers < 1) return "bad-op";
+    RunParams p;
+    if (!parse_params(t, p) || !p.sched.empty()) return "bad-op";
+    p.stick = 0;
+    std::vector<std::string> first_viols;
+    auto res = detsched::explore([&](const std::vector<uint64_t>& sched) {
+        RunParams q = p;
+        q.sched = sched;
+        std::vector<std::string> v;
+        execute(q, true, v);
+        if (!v.empty() && first_viols.empty()) first_viols = v;
+        return !v.empty();
+    }, p.maxruns);
+    std::ostringstream os;
+    os << "explored=" << res.runs << " complete=" << (res.complete ? 1 : 0) << " violated=" << (res.violated ? 1 : 0);
+    vh::answer(os.str());
+    if (res.violated) {
+        last_resolved = res.witness;
+        for (const auto& m : first_viols) vh::viol(m + " [schedule sched=" + vh::show_csv(res.witness) + "]");
+    }
     return "";
 }
 
@@ -301,6 +343,9 @@ int main(int argc, char** argv) {
             if (ok && t[0] == "main") { sc.main_calls = calls; out = "ok"; }
         } else if (t[0] == "run") {
             out = do_run(t);
+            if (out.empty()) continue;
+        } else if (t[0] == "explore") {
+            out = do_explore(t);
             if (out.empty()) continue;
         } else if (t[0] == "sched" && t.size() == 1) {
             out = vh::show_csv(last_resolved);
